@@ -279,6 +279,18 @@ fn hand_specs() -> Vec<Spec> {
         b.p(t, "; Trail");
         v.push(b.done());
     }
+    {
+        // nullable start symbol: the empty input is a sentence, and so is every prefix that ends a list
+        let mut b = B::new("optlist");
+        let s2 = b.nt("Elems", true, false);
+        let e = b.nt("Elem", false, false);
+        b.p(s2, "");
+        b.p(s2, "Elems Elem ?");
+        b.p(e, "x");
+        b.p(e, "( Elems )");
+        b.p(e, "λ → x ?");
+        v.push(b.done());
+    }
     v
 }
 
